@@ -93,6 +93,24 @@ def run(ck):
                             ck.ob('C06.order', f'{label0} how={how} order={list(perm)}', sig == base[1], key=f'collect_results_{how}:order-dependent',
                                   what=f'{label0} how={how}: the collected outcome for yield order {list(perm)} differs from order {list(base[0])}')
     synthetic_identity(ck, collect)
+    synthetic_failed_context(ck, collect)
+    # a DataFrame whose row labels are a permutation of the positions: rows must land by label
+    permuted = Table(5, missing={'a': {2}}, index_labels=[3, 1, 4, 0, 2])
+    for lname, contexts in layouts(thorough)[:3]:
+        src = make_config_source(contexts)
+        expected = expected_direct(r, permuted, contexts)
+        run0 = run_frontend(r, 'pandas', permuted, src)
+        label0 = f'pandas[{lname}; permuted-index]'
+        if run0.error is not None:
+            ck.violate('C06.collect', 'pandas:permuted-index:stream-raises', f'{label0}: the stream raises {run0.error.exc}')
+            continue
+        for how in ('list', 'dict'):
+            try:
+                res = it.call(collect, [list(run0.context_results)], dict(how=how), None)
+            except AbsRaise as e:
+                ck.violate('C06.collect', f'collect_results_{how}:permuted-index:raises-{e.exc.tname}', f'{label0} how={how}: raises {e.exc}')
+                continue
+            check_collected(ck, f'{label0} how={how}', how, res, permuted, contexts, expected, 'permuted-index')
     ck.floor('C06.rows', 100)
 
 
@@ -232,3 +250,42 @@ def synthetic_identity(ck, collect):
                             ok = ok and els[i].m is False and X.show(els[i].d) == x
             ck.ob('C06.identity', label, ok, key=f'collect_results_{how}:identity-stream-module-test',
                   what=f'{label}: results that differ only in stream id / module / test name are merged or misplaced: {sorted(got)}')
+
+
+def synthetic_failed_context(ck, collect):
+    """a ContextResult without results (its test could not run) must not touch the results collected for other streams"""
+    from ..vec import El
+    it = ck.runner.interp
+    rm = it.module('ioos_qc.results').globals
+    CallResult, ContextResult = rm['CallResult'], rm['ContextResult']
+
+    def vec(vals, dtype='f8', kind='nd'):
+        return Vec.fresh([El(X.num(v), False) for v in vals], kind=kind, dtype=dtype)
+
+    def ctx(stream, triples, mask, data):
+        crs = [it.instantiate(CallResult, [], dict(package=p, test=tname, function=None, results=vec(flags, 'u1', 'ma')), None) for p, tname, flags in triples]
+        n = sum(mask)
+        return it.instantiate(ContextResult, [], dict(
+            stream_id=stream, results=crs, subset_indexes=Vec.fresh([El(X.TRUE if m else X.FALSE, False) for m in mask], kind='nd', dtype='b1'),
+            data=vec(data), tinp=vec(list(range(n))), zinp=vec([1] * n), lat=vec([2] * n), lon=vec([3] * n)), None)
+    m1, m2 = [True, True, False, False], [False, False, True, True]
+    scen = [
+        ctx('temp', [('qartod', 't', [1, 3])], m1, [10, 11]),
+        ctx('salt', [], m1, [90, 91]),                       # salt's test failed in the first window
+        ctx('temp', [('qartod', 't', [4, 1])], m2, [12, 13]),
+        ctx('salt', [], m2, [92, 93]),
+    ]
+    for order in ([0, 1, 2, 3], [0, 2, 1, 3], [1, 0, 3, 2], [0, 1, 3, 2]):
+        label = f'failed-context scenario order={order}'
+        try:
+            res = it.call(collect, [[scen[i] for i in order]], dict(how='list'), None)
+        except AbsRaise as e:
+            ck.violate('C06.identity', 'collect_results_list:failed-context-raises', f'{label}: raises {e.exc}')
+            continue
+        ok = len(res) == 1 and res[0].attrs['stream_id'] == 'temp'
+        if ok:
+            cr = res[0]
+            ok = show_els(cr.attrs['results']) == ['1', '3', '4', '1'] and show_els(cr.attrs['data']) == ['10', '11', '12', '13']
+        ck.ob('C06.identity', label, ok, key='collect_results_list:failed-context-disturbs-other-stream',
+              what=f'{label}: a ContextResult without results changed what was collected for another stream: '
+                   f'{[(c.attrs["stream_id"], show_els(c.attrs["results"]), show_els(c.attrs["data"])) for c in res]}')
